@@ -310,6 +310,21 @@ func (c17World) Run(prop string, ch *zsim.Choices, trace bool) *RunResult {
 			if v := totalityViolation(r, prefix, "crash at offset "+fmt.Sprint(k)); v != nil {
 				zsim.Fail(v.Clause, "%s", v.Msg)
 			}
+			if partial && whole == 0 {
+				// a torn event handed to ConsoleWriter (it decodes the binary form first): it is
+				// reported as an error, not printed as if it were a whole event
+				rc := guarded(len(prefix), false, func() ([]byte, error) {
+					var out bytes.Buffer
+					_, err := zerolog.ConsoleWriter{Out: &out, NoColor: true}.Write(prefix)
+					return out.Bytes(), err
+				})
+				if v := totalityViolation(rc, prefix, "torn event through ConsoleWriter, cut at "+fmt.Sprint(k)); v != nil {
+					zsim.Fail(v.Clause, "%s", v.Msg)
+				}
+				if rc.err == nil && rc.panicked == nil {
+					zsim.Fail("C17.partial_not_reported", "an event of %d bytes cut at offset %d and handed to ConsoleWriter.Write was rendered as %s with a nil error", disk.bounds[0], k, clip(rc.out, 200))
+				}
+			}
 			var want []byte
 			for i := 0; i < whole; i++ {
 				want = append(want, lines[i]...)
